@@ -19,7 +19,7 @@ import traceback
 
 ROOT = os.path.dirname(os.path.dirname(os.path.abspath(__file__)))
 sys.path.insert(0, ROOT)
-OUT = os.path.join(ROOT, "out")
+OUT = os.environ.get("VERIF_OUT_DIR") or os.path.join(ROOT, "out")
 VENV_PY = os.environ.get("VERIF_REPLAY_PY", "/venv/bin/python")
 
 SEMANTICS = [
